@@ -620,14 +620,17 @@ func TestC02(t *testing.T) {
 	sort.SliceStable(order, func(a, b int) bool {
 		return len(items[order[a]].fx.Block.Transactions) > len(items[order[b]].fx.Block.Transactions)
 	})
-	r.Cases(len(items)+nChains, 0, func(idx int) {
-		if idx < len(items) {
+	classes := planClasses()
+	r.Cases(len(items)+len(classes)+nChains, 0, func(idx int) {
+		switch {
+		case idx < len(items):
 			fixtureCase(r, idx, items[order[idx]])
-			return
+		case idx < len(items)+len(classes):
+			classCase(r, idx, classes[idx-len(items)])
+		default:
+			chainCase(r, idx, idx-len(items)-len(classes))
 		}
-		chainCase(r, idx, idx-len(items))
 	})
-	classFixtures(r, len(items)+nChains)
 
 	r.Assume("crypto.Pedersen / crypto.Poseidon / StarknetKeccak and the temp-trie commitment root are trusted primitives (C01 checks the tries); forged blocks are re-hashed with core.BlockHash itself")
 	r.Assume("applicability table = DESIGN.md C02 + Appendix A (written from the protocol): only committed fields are tampered; for formats < 0.13.2 receipts/state diffs/gas prices, for < 0.11.0 transaction fields, and blocks in a network's unverifiable range are never tampered")
